@@ -121,6 +121,33 @@ def gwSyncStep (le : AList Str) (ep : Endpoint) : AList Str :=
 def gwSync (info : ServerInfo) (g : Gw) : Gw :=
   { shardCount := info.shardCount, leaderEndpoints := info.endpoints.foldl gwSyncStep g.leaderEndpoints }
 
+/-! ## The gateway's callers: where a request is sent
+
+`reconcile.reconcile` (the allocate loop, one report per period) and `globalCounterManager.doAcquire` (the count
+path) both start with `client, err := clientSets.ClientFor(cluster)` and send THIS request with THAT client: the
+destination of a request is `clientFor` of the gateway's state at the moment it is issued; nothing is remembered
+between requests. A gateway history is a list of syncs (from some server's `ServerInfo`) and requests. -/
+
+inductive GOp
+  | sync (info : ServerInfo)      -- clientSets.sync got this ServerInfo
+  | request (u : Str)             -- one allocate report or one acquire for upstream u
+deriving Repr
+
+/-- where a request for upstream `u` goes (or why none is sent) -/
+def requestDest (g : Gw) (u : Str) : GwRes Str := clientFor g u
+
+def gwStep (g : Gw) : GOp → Gw × Option (Str × GwRes Str)
+  | .sync info => (gwSync info g, none)
+  | .request u => (g, some (u, requestDest g u))
+
+/-- the gateway after a history, and the destinations of its requests, in order -/
+def gwRun : Gw → List GOp → Gw × List (Str × GwRes Str)
+  | g, [] => (g, [])
+  | g, o :: rest =>
+    let r := gwStep g o
+    let q := gwRun r.1 rest
+    (q.1, match r.2 with | some d => d :: q.2 | none => q.2)
+
 /-! ## The limiter server -/
 
 /-- What the rate limiter needs from a `LimitStore` (any implementation): every function returns the store
